@@ -113,6 +113,40 @@ CHECKS = {
         "name-sorted axis order.",
         "DESIGN.md 3/C04",
     ),
+    "C06": (
+        "exploration",
+        "exhaustive enumeration of a finite configuration lattice on the real code, differential against a twin farmer's direct run",
+        "Six runner descriptions x grid / case / mixed inputs x farmer kind "
+        "(Runner, Runner->DataFrame, Harvester with each overwrite policy over "
+        "disjoint, equal and conflicting existing data and both engines, "
+        "Sampler with scripted draws) x shuffle x batch request x the four "
+        "patterns of which of grow and reap use a Crop rebuilt from disk; each "
+        "is sown, grown in descending order and reaped, and the Dataset / "
+        "DataFrame, the farmer's last result, full_ds and the decoded on-disk "
+        "data are compared with the direct call on a twin farmer (a raise must "
+        "be matched by the same raise).",
+        "Quick tier takes a hash-selected 2/7 of the lattice; reload is "
+        "in-process (real processes are in C04's conformance pass).",
+        "DESIGN.md 3/C06",
+    ),
+    "C12": (
+        "fault_enumeration",
+        "exhaustive single-fault enumeration: one OSError injected at every file operation of the reap, plus every semantic failure mode, each followed by the corrected retry, on the real code",
+        "Every mix of clean_up x allow_incomplete x wait x farmer kind x crop "
+        "state is reaped by the real code with each failure cause (incomplete "
+        "crop, unreadable result, wrong output description, merge conflict) and "
+        "with one injected OSError at each open/read/write/close/rename "
+        "operation of the reap (positions taken from a recorded fault-free "
+        "run and verified when hit). After a raise the crop directory must be "
+        "byte-identical and the corrected retry must deliver the exact result "
+        "and data file; after success the directory must exist iff the "
+        "documented rule says so; for Harvester and Sampler the recorded log "
+        "must show the deletion after the last data-file operation.",
+        "HDF5 writes are not fault-injectable (joblib/pickle engines cover the "
+        "data-file path); stat/list are not faulted; faults inside the clean-up "
+        "itself are out of scope of the property.",
+        "DESIGN.md 3/C12",
+    ),
 }
 
 NOT_BUILT = "check not built yet in this session (design in DESIGN.md section 3)"
